@@ -106,7 +106,7 @@ Theorem sample_khatri_rao_spec (Ms : list (tensor F)) (skip : option nat) (inds 
       get d (sample_kr_rows Op Ms skip inds n) [s; r] = get d K [nth s (sample_kr_indices Ms skip inds n) 0; r].
 Proof.
   intros Ms' Hne Hm Hl Hf Hin.
-  destruct (khatri_rao_spec Op Rth Ms None None skip R Hne Hm) as [K [HK [WK [HsK HgK]]]]. fold Ms' in HsK, HgK.
+  destruct (khatri_rao_spec Op Rth Ms None None skip R Hne Hm ltac:(intros w0 E; discriminate E) ltac:(intros m0 E; discriminate E)) as [K [HK [WK [HsK HgK]]]]. fold Ms' in HsK, HgK.
   exists K. split; [exact HK|]. intros s r Hs Hr.
   rewrite (sample_kr_indices_spec Ms skip inds n s Hl Hf Hs). fold Ms'.
   split.
